@@ -10,7 +10,7 @@ META = {
                         "any split into run queue / sleepers / idle, sleepers' due offsets anywhere in (0, 2^20) in due order, <= 2 pending interrupt-context "
                         "requests, time base T0 = any 32-bit value (every placement in the ring, both wrap windows), pass advance < 2^20, timeout offsets in "
                         "(-2^20, 2^20). Inductive over histories; plus all 2-call histories from reset",
-               "thorough": "as quick with 3 fibres for the pass, and all 3-call histories from reset"},
+               "thorough": "as quick with 3 fibres for the pass"},
     "outside": ["pending due times 2^31 or more ticks ahead (property scope); offsets are bounded by 2^20 only to keep the model's 64-bit arithmetic and the "
                 "32-bit cyclic arithmetic trivially in range - the time BASE is unrestricted", "more than 4 fibres alive", "more than one unsatisfied fibre_timeout per dispatch (scope)"],
     "assumptions": ["model keeps due times as mathematical offsets from T0; the real code must agree using 32-bit cyclic arithmetic",
@@ -25,7 +25,7 @@ def queries(tier, kf):
     qs = [step("c02", op, 3, 2, 1, G) for op in (0, 2)]
     nfn = 2 if tier == "quick" else 3
     qs += [step("c02", 3, nfn, 1 if tier == "quick" else 2, 1, G, sop=sop, timeout=1500 if tier == "quick" else 7200) for sop in range(5)]
-    qs.append(hist("c02-hist-k%d" % (2 if tier == "quick" else 3), 2 if tier == "quick" else 3, 3, 1, G, timeout=3000, mem=14))
+    qs.append(hist("c02-hist-k2", 2, 3, 1, G, timeout=3000, mem=14))
     cans = [("cmp-noncyclic", "librfn/fibre.c", "\treturn f1->duetime - f2->duetime;", "\treturn f1->duetime < f2->duetime ? -1 : f1->duetime > f2->duetime;", 3),
             ("expire-strict", "librfn/fibre.c", "cyclecmp32(timeout_fibre->duetime, kernel.now) <= 0) {", "cyclecmp32(timeout_fibre->duetime, kernel.now) < 0) {", 3),
             ("timeout-strict", "librfn/fibre.c", "\tif (cyclecmp32(duetime, kernel.now) <= 0)\n\t\treturn true;", "\tif (cyclecmp32(duetime, kernel.now) < 0)\n\t\treturn true;", 3),
